@@ -118,4 +118,21 @@ def execCommandShapeRef : List String := [
   "_path.display())))?;}},Command::ProfilingTimeSync=>{comms.send_response(Response::ProfilingTimeSync(",
   "PROFILING_START.elapsed()))?;},Command::Marker(x)=>{comms.send_response(Response::Marker(x))?;}Comma",
   "nd::Shutdown=>{returnOk(false);},}Ok(true)}"]
+/-! the doer's listing: `filter_func` (the path relative to the root, the filters' verdict, the entry's details) and `handle_get_entries` (every entry of the walk is sent, then the end marker) - what `Model/Walk.lean` / the listing model were written against -/
+/-- `filter_func`, normalised (see extract_more.py `confirm_shape`) -/
+def filterFuncShapeRef : List String := [
+  "entry:&std::fs::DirEntry,root:&Path,filters:&Filters->Result<parallel_walk_dir::FilterResult<RootRel",
+  "ativePath>,String>{letpath=entry.path().strip_prefix(root).expect(\"\").to_path_buf();letpath=matchRoo",
+  "tRelativePath::try_from(&pathas&Path){Ok(p)=>p,Err(e)=>returnErr(format!(\"\",path.display())),};letsk",
+  "ip=apply_filters(&path,&filters)==FilterResult::Exclude;ifskip{}Ok(parallel_walk_dir::FilterResult::",
+  "<RootRelativePath>{skip,additional_data:path,})}"]
+/-- `handle_get_entries`, normalised (see extract_more.py `confirm_shape`) -/
+def handleGetEntriesShapeRef : List String := [
+  "comms:&mutComms,context:&mutDoerContext,filters:Filters->Result<(),String>{letstart=Instant::now();l",
+  "etroot=context.root.clone();letentry_receiver=parallel_walk_dir(&context.root,move|e|filter_func(e,&",
+  "root,&filters));letmutcount=0;whileletOk(entry)=entry_receiver.recv(){count+=1;matchentry{Err(e)=>re",
+  "turnErr(format!(\"\",context.root.display())),Ok(e)=>{profile_this!(\"\");letpath=e.additional_data;letm",
+  "etadata=matche.dir_entry.metadata(){Ok(m)=>m,Err(err)=>returnErr(format!(\"\",path)),};letd=entry_deta",
+  "ils_from_metadata(metadata,&e.dir_entry.path())?;comms.send_response(Response::Entry((path,d)))?;}}}",
+  "letelapsed=start.elapsed().as_millis();comms.send_response(Response::EndOfEntries)?;Ok(())}"]
 end Rj
